@@ -14,11 +14,23 @@
 
 #include "contracts/byte_buf.h" /* RET, OLD, PEQ, REQ_WITNESS_BUF, ENS_PREFIX_KEPT */
 
-/* ---- ghost witnesses of this module (set by the harness, 0 otherwise) ---- */
-size_t g_blk;  /* index of an arbitrary 3-byte/4-char quantum (base64), or of an arbitrary byte (hex)  */
-size_t g_sub;  /* offset inside that quantum (0..3 text side, 0..2 byte side)                          */
-size_t g_out;  /* index of an arbitrary byte of the output storage outside the predicted output range  */
-uint8_t g_outv; /* its value before the call                                                            */
+/* ---- ghost witnesses of this module (every harness sets them; DFCC starts globals as nondet) ----
+ * One arbitrary quantum of the input is captured BEFORE the call (requires clauses), so that the postconditions can
+ * speak about plain variables instead of re-reading the input through pointers. */
+size_t g_blk;                 /* index of an arbitrary quantum: 3 bytes <-> 4 chars (base64), 1 byte <-> 2 chars (hex) */
+size_t g_sub;                 /* offset inside that quantum on the OUTPUT side                                         */
+uint8_t g_b0, g_b1, g_b2;     /* encoders: the input bytes of quantum g_blk (those that exist)                         */
+uint8_t g_c0, g_c1, g_c2, g_c3; /* decoders: the input characters of quantum g_blk (those that exist)                  */
+#define GHOST_RESET_ENC() do { GHOST_RESET(); g_blk = 0; g_sub = 0; } while (0)
+#define GHOSTS_ENC()                                                                                                   \
+    do {                                                                                                               \
+        GHOST_RESET();                                                                                                 \
+        g_on = true;                                                                                                   \
+        g_k = nondet_size_t(); g_old = nondet_u8(); g_j = nondet_size_t(); g_src = nondet_u8();                       \
+        g_blk = nondet_size_t(); g_sub = nondet_size_t();                                                              \
+        g_b0 = nondet_u8(); g_b1 = nondet_u8(); g_b2 = nondet_u8();                                                    \
+        g_c0 = nondet_u8(); g_c1 = nondet_u8(); g_c2 = nondet_u8(); g_c3 = nondet_u8();                                \
+    } while (0)
 
 /* ------------------------------------------------------------------ spec: alphabets (RFC 4648 sections 4 and 8) */
 #define SPEC_INVALID 0xFF
@@ -115,12 +127,15 @@ __CPROVER_ensures(RET == AWS_OP_SUCCESS ==> *value == (to_decode == '=' ? 0xFF :
 
 /* aws_hex_encode overwrites the buffer from offset 0 (it does not append) */
 #define HEX_ENC_OK(c, o) ((c)->len <= SIZE_MAX / 2 && (o)->capacity >= 2 * (c)->len)
-/* hex digit g_sub (0 = high nibble, 1 = low nibble) of byte b */
+/* hex digit sub (0 = high nibble, 1 = low nibble) of byte b */
 #define SPEC_HEX_DIGIT(b, sub) SPEC_HEX_CHAR((sub) == 0 ? ((b) >> 4) : ((b)&0x0f))
+/* capture input byte g_blk in g_b0 */
+#define REQ_WITNESS_HEX_IN(c) __CPROVER_requires(g_on ==> (g_blk < (c)->len ==> g_b0 == (c)->ptr[g_blk]))
 
 int aws_hex_encode(const struct aws_byte_cursor *AWS_RESTRICT to_encode, struct aws_byte_buf *AWS_RESTRICT output)
 __CPROVER_requires(CUR_OK(to_encode))
 __CPROVER_requires(BUF_OK(output))
+REQ_WITNESS_HEX_IN(to_encode)
 __CPROVER_assigns(HEX_ENC_OK(to_encode, output) : output->len)
 __CPROVER_assigns(HEX_ENC_OK(to_encode, output) && to_encode->len > 0 : __CPROVER_object_upto(output->buffer, 2 * to_encode->len))
 __CPROVER_ensures(RET == (HEX_ENC_OK(to_encode, output) ? AWS_OP_SUCCESS : AWS_OP_ERR))
@@ -129,24 +144,46 @@ __CPROVER_ensures(RET != AWS_OP_SUCCESS ==> output->len == OLD(output->len))
 __CPROVER_ensures(BUF_SHAPE_KEPT(output))
 /* every character below the reported length is the canonical lowercase digit of its nibble */
 __CPROVER_ensures(g_on && RET == AWS_OP_SUCCESS && g_blk < to_encode->len && g_sub < 2 ==>
-                  output->buffer[2 * g_blk + g_sub] == SPEC_HEX_DIGIT(to_encode->ptr[g_blk], g_sub))
+                  output->buffer[2 * g_blk + g_sub] == SPEC_HEX_DIGIT(g_b0, g_sub))
+;
+
+/* appends 2n characters, growing the buffer through aws_byte_buf_reserve_relative when needed */
+int aws_hex_encode_append_dynamic(const struct aws_byte_cursor *AWS_RESTRICT to_encode, struct aws_byte_buf *AWS_RESTRICT output)
+__CPROVER_requires(CUR_OK(to_encode) && to_encode->ptr != NULL)
+__CPROVER_requires(BUF_OK(output) && output->allocator != NULL)
+REQ_WITNESS_HEX_IN(to_encode)
+REQ_WITNESS_BUF(output)
+__CPROVER_assigns(output->len, output->capacity, output->buffer)
+__CPROVER_assigns(output->capacity > 0 : __CPROVER_object_whole(output->buffer))
+__CPROVER_frees(output->buffer)
+__CPROVER_ensures(RET == AWS_OP_SUCCESS || RET == AWS_OP_ERR)
+__CPROVER_ensures((to_encode->len > SIZE_MAX / 2 || 2 * to_encode->len > SIZE_MAX - OLD(output->len)) ==> RET == AWS_OP_ERR)
+__CPROVER_ensures(RET == AWS_OP_SUCCESS ==> output->len == OLD(output->len) + 2 * to_encode->len)
+__CPROVER_ensures(RET != AWS_OP_SUCCESS ==> output->len == OLD(output->len))
+__CPROVER_ensures(output->len <= output->capacity && output->allocator == OLD(output->allocator))
+__CPROVER_ensures(g_on && RET == AWS_OP_SUCCESS && g_blk < to_encode->len && g_sub < 2 ==>
+                  output->buffer[OLD(output->len) + 2 * g_blk + g_sub] == SPEC_HEX_DIGIT(g_b0, g_sub))
+ENS_PREFIX_KEPT(output)
 ;
 
 /* ------------------------------------------------------------------ base64 encode (appends at output->len) */
 
 #define B64_ENC_FITS(c, o) ((c)->len <= B64_MAX_ENCODABLE && (o)->capacity - (o)->len >= B64_ENC_LEN((c)->len))
-/* input byte idx, zero beyond the end (RFC 4648: "padded with zero bits") */
-#define B64_IN(p, n, idx) ((idx) < (n) ? (p)[idx] : (uint8_t)0)
-/* 6-bit group number sub (0..3) of quantum blk */
-#define B64_SEXTET(p, n, blk, sub)                                                                                     \
-    ((uint8_t)((sub) == 0   ? (B64_IN(p, n, 3 * (blk)) >> 2)                                                           \
-               : (sub) == 1 ? (((B64_IN(p, n, 3 * (blk)) & 0x03) << 4) | (B64_IN(p, n, 3 * (blk) + 1) >> 4))          \
-               : (sub) == 2 ? (((B64_IN(p, n, 3 * (blk) + 1) & 0x0f) << 2) | (B64_IN(p, n, 3 * (blk) + 2) >> 6))      \
-                            : (B64_IN(p, n, 3 * (blk) + 2) & 0x3f)))
-/* is text position (blk, sub) a padding position? */
-#define B64_IS_PAD_POS(n, blk, sub) (((sub) == 3 && 3 * (blk) + 2 >= (n)) || ((sub) == 2 && 3 * (blk) + 1 >= (n)))
-/* the canonical character at text position 4*blk+sub of the encoding of p[0..n) */
-#define B64_CANON(p, n, blk, sub) (B64_IS_PAD_POS(n, blk, sub) ? (uint8_t)'=' : SPEC_B64_CHAR(B64_SEXTET(p, n, blk, sub)))
+/* capture the (up to three) input bytes of quantum g_blk */
+#define REQ_WITNESS_B64_IN(c)                                                                                          \
+    __CPROVER_requires(g_on ==> (g_blk <= SIZE_MAX / 4 &&                                                              \
+                                 (3 * g_blk < (c)->len ==> g_b0 == (c)->ptr[3 * g_blk]) &&                             \
+                                 (3 * g_blk + 1 < (c)->len ==> g_b1 == (c)->ptr[3 * g_blk + 1]) &&                     \
+                                 (3 * g_blk + 2 < (c)->len ==> g_b2 == (c)->ptr[3 * g_blk + 2])))
+/* RFC 4648 section 4: the 24-bit input group of quantum g_blk of an n-byte input; missing bytes are zero bits */
+#define B64_GROUP(n)                                                                                                   \
+    (((uint32_t)g_b0 << 16) | ((uint32_t)(3 * g_blk + 1 < (n) ? g_b1 : 0) << 8) | (uint32_t)(3 * g_blk + 2 < (n) ? g_b2 : 0))
+/* ... treated as 4 concatenated 6-bit groups; group number sub */
+#define B64_SEXTET(n, sub) ((uint8_t)((B64_GROUP(n) >> (6 * (3 - (sub)))) & 0x3f))
+/* text position (g_blk, sub) is a padding position: the final quantum has 1 byte (two '=') or 2 bytes (one '=') */
+#define B64_IS_PAD_POS(n, sub) (((sub) == 3 && 3 * g_blk + 2 >= (n)) || ((sub) == 2 && 3 * g_blk + 1 >= (n)))
+/* character c is the canonical character for text position (g_blk, sub) of the encoding of an n-byte input */
+#define B64_CHAR_IS_CANON(c, n, sub) (B64_IS_PAD_POS(n, sub) ? (c) == '=' : (c) == SPEC_B64_CHAR(B64_SEXTET(n, sub)))
 
 /* ASSUMPTION of the portable-path units: the run-time dispatch answers "no AVX2" (cpuid.c is not examined;
  * the vector path is compared natively, unit avx2_differential) */
@@ -160,6 +197,7 @@ int aws_base64_encode(const struct aws_byte_cursor *AWS_RESTRICT to_encode, stru
 __CPROVER_requires(CUR_OK(to_encode))
 __CPROVER_requires(BUF_OK(output))
 REQ_WITNESS_BUF(output)
+REQ_WITNESS_B64_IN(to_encode)
 __CPROVER_assigns(B64_ENC_FITS(to_encode, output) : output->len)
 __CPROVER_assigns(B64_ENC_FITS(to_encode, output) && to_encode->len > 0 :
                   __CPROVER_object_upto(output->buffer + output->len, B64_ENC_LEN(to_encode->len)))
@@ -169,9 +207,93 @@ __CPROVER_ensures(RET == AWS_OP_SUCCESS ==> output->len == OLD(output->len) + B6
 __CPROVER_ensures(RET != AWS_OP_SUCCESS ==> output->len == OLD(output->len))
 __CPROVER_ensures(BUF_SHAPE_KEPT(output))
 /* every character between the old and the new length is the canonical RFC 4648 character of its position */
-__CPROVER_ensures(g_on && RET == AWS_OP_SUCCESS && g_sub < 4 && g_blk < (to_encode->len + 2) / 3 ==>
-                  output->buffer[OLD(output->len) + 4 * g_blk + g_sub] == B64_CANON(to_encode->ptr, to_encode->len, g_blk, g_sub))
+__CPROVER_ensures(g_on && RET == AWS_OP_SUCCESS && g_sub < 4 && 3 * g_blk < to_encode->len ==>
+                  B64_CHAR_IS_CANON(output->buffer[OLD(output->len) + 4 * g_blk + g_sub], to_encode->len, g_sub))
 ENS_PREFIX_KEPT(output)
+;
+
+/* ------------------------------------------------------------------ hex decode (overwrites from offset 0) */
+
+#define HEX_DEC_LEN(n) (((n) >> 1) + ((n)&1))
+#define HEX_DEC_LEN_OK(c, o) ((c)->len != SIZE_MAX && (o)->capacity >= HEX_DEC_LEN((c)->len))
+/* output byte k is made of text positions 2k-odd (high digit; absent for k == 0 of an odd-length text, which is read
+ * as if a '0' had been prepended) and 2k+1-odd (low digit).  Capture both in g_c0 / g_c1. */
+#define HEX_HI_POS(n) (2 * g_blk - ((n)&1))
+#define HEX_LO_POS(n) (2 * g_blk + 1 - ((n)&1))
+#define HEX_HAS_HI(n) (!(g_blk == 0 && ((n)&1)))
+#define REQ_WITNESS_HEX_TEXT(c)                                                                                        \
+    __CPROVER_requires(g_on ==> (g_blk < HEX_DEC_LEN((c)->len) && (c)->len != SIZE_MAX ==>                             \
+                                 (HEX_HAS_HI((c)->len) ==> g_c0 == (c)->ptr[HEX_HI_POS((c)->len)]) &&                  \
+                                     g_c1 == (c)->ptr[HEX_LO_POS((c)->len)]))
+
+int aws_hex_decode(const struct aws_byte_cursor *AWS_RESTRICT to_decode, struct aws_byte_buf *AWS_RESTRICT output)
+__CPROVER_requires(CUR_OK(to_decode))
+__CPROVER_requires(BUF_OK(output))
+REQ_WITNESS_HEX_TEXT(to_decode)
+__CPROVER_assigns(HEX_DEC_LEN_OK(to_decode, output) : output->len)
+__CPROVER_assigns(HEX_DEC_LEN_OK(to_decode, output) && to_decode->len > 0 :
+                  __CPROVER_object_upto(output->buffer, HEX_DEC_LEN(to_decode->len)))
+__CPROVER_ensures(RET == AWS_OP_SUCCESS || RET == AWS_OP_ERR)
+__CPROVER_ensures(!HEX_DEC_LEN_OK(to_decode, output) ==> RET == AWS_OP_ERR)
+__CPROVER_ensures(RET == AWS_OP_SUCCESS ==> output->len == HEX_DEC_LEN(to_decode->len))
+__CPROVER_ensures(RET != AWS_OP_SUCCESS ==> output->len == OLD(output->len))
+__CPROVER_ensures(BUF_SHAPE_KEPT(output))
+/* accepts only hexadecimal digits: both characters of every quantum */
+__CPROVER_ensures(g_on && RET == AWS_OP_SUCCESS && g_blk < HEX_DEC_LEN(to_decode->len) ==>
+                  (HEX_HAS_HI(to_decode->len) ==> SPEC_IS_HEX(g_c0)) && SPEC_IS_HEX(g_c1))
+/* every byte below the reported length was written with the value of its two digits */
+__CPROVER_ensures(g_on && RET == AWS_OP_SUCCESS && g_blk < HEX_DEC_LEN(to_decode->len) ==>
+                  output->buffer[g_blk] == (uint8_t)(((HEX_HAS_HI(to_decode->len) ? SPEC_HEX_VAL(g_c0) : 0) << 4) | SPEC_HEX_VAL(g_c1)))
+;
+
+/* ------------------------------------------------------------------ base64 decode (overwrites from offset 0) */
+
+/* ternary-free forms for assigns conditions */
+#define B64_DEC_FITS(c, o)                                                                                             \
+    ((c)->len == 0 || (((c)->len & 3) == 0 && (o)->capacity >= 3 * ((c)->len >> 2) - B64_PAD((c)->ptr, (c)->len)))
+/* capture the four characters of quantum g_blk */
+#define REQ_WITNESS_B64_TEXT(c)                                                                                        \
+    __CPROVER_requires(g_on ==> (g_blk < ((c)->len >> 2) && ((c)->len & 3) == 0 ==>                                    \
+                                 g_c0 == (c)->ptr[4 * g_blk] && g_c1 == (c)->ptr[4 * g_blk + 1] &&                     \
+                                     g_c2 == (c)->ptr[4 * g_blk + 2] && g_c3 == (c)->ptr[4 * g_blk + 3]))
+#define B64_IS_LAST(n) (g_blk + 1 == ((n) >> 2))
+/* RFC 4648: quantum g_blk of a well-formed text: four alphabet characters; only the final quantum may end in "=" or
+ * "==" */
+#define B64_QUANTUM_WF(n)                                                                                              \
+    (B64_IS_ALPHA(g_c0) && B64_IS_ALPHA(g_c1) &&                                                                       \
+     (B64_IS_ALPHA(g_c2) || (B64_IS_LAST(n) && g_c2 == '=' && g_c3 == '=')) &&                                         \
+     (B64_IS_ALPHA(g_c3) || (B64_IS_LAST(n) && g_c3 == '=')))
+/* canonical: the bits of the final quantum that do not belong to a decoded byte are zero (RFC 4648 section 3.5) */
+#define B64_TRAILING_BITS_ZERO(n)                                                                                      \
+    (!B64_IS_LAST(n) || ((g_c3 == '=' && g_c2 != '=' ==> (SPEC_B64_VAL(g_c2) & 0x03) == 0) &&                         \
+                         (g_c3 == '=' && g_c2 == '=' ==> (SPEC_B64_VAL(g_c1) & 0x0f) == 0)))
+/* the 24-bit group of quantum g_blk ('=' counts as zero bits) and its byte number sub */
+#define B64_V0(c) ((uint32_t)((c) == '=' ? 0 : SPEC_B64_VAL(c)))
+#define B64_TEXT_GROUP ((B64_V0(g_c0) << 18) | (B64_V0(g_c1) << 12) | (B64_V0(g_c2) << 6) | B64_V0(g_c3))
+#define B64_DEC_BYTE(sub) ((uint8_t)((B64_TEXT_GROUP >> (8 * (2 - (sub)))) & 0xff))
+
+int aws_base64_decode(const struct aws_byte_cursor *AWS_RESTRICT to_decode, struct aws_byte_buf *AWS_RESTRICT output)
+__CPROVER_requires(CUR_OK(to_decode))
+__CPROVER_requires(BUF_OK(output))
+REQ_WITNESS_B64_TEXT(to_decode)
+__CPROVER_assigns(B64_DEC_FITS(to_decode, output) : output->len)
+__CPROVER_assigns(to_decode->len > 0 && B64_DEC_FITS(to_decode, output) :
+                  __CPROVER_object_upto(output->buffer, 3 * (to_decode->len >> 2) - B64_PAD(to_decode->ptr, to_decode->len)))
+__CPROVER_ensures(RET == AWS_OP_SUCCESS || RET == AWS_OP_ERR)
+/* 1: a text whose length is not a multiple of 4, or whose predicted length does not fit, is refused */
+__CPROVER_ensures(!B64_DEC_FITS(to_decode, output) ==> RET == AWS_OP_ERR)
+__CPROVER_ensures(to_decode->len == 0 ==> RET == AWS_OP_SUCCESS)
+/* 2: the reported length is the predicted length */
+__CPROVER_ensures(RET == AWS_OP_SUCCESS ==> output->len == B64_DEC_LEN(to_decode->ptr, to_decode->len))
+__CPROVER_ensures(RET != AWS_OP_SUCCESS ==> output->len == OLD(output->len))
+__CPROVER_ensures(BUF_SHAPE_KEPT(output))
+/* 3: accepts only well-formed text (alphabet, padding only at the very end) */
+__CPROVER_ensures(g_on && RET == AWS_OP_SUCCESS && g_blk < (to_decode->len >> 2) ==> B64_QUANTUM_WF(to_decode->len))
+/* 4: accepts only the canonical form (zero trailing bits) */
+__CPROVER_ensures(g_on && RET == AWS_OP_SUCCESS && g_blk < (to_decode->len >> 2) ==> B64_TRAILING_BITS_ZERO(to_decode->len))
+/* 5: never reports more bytes than it wrote: every byte below the reported length has the value RFC 4648 gives it */
+__CPROVER_ensures(g_on && RET == AWS_OP_SUCCESS && g_blk < (to_decode->len >> 2) && g_sub < 3 && 3 * g_blk + g_sub < output->len ==>
+                  output->buffer[3 * g_blk + g_sub] == B64_DEC_BYTE(g_sub))
 ;
 
 #endif
